@@ -217,10 +217,10 @@ type OpObs struct {
 	Kind    string `json:"kind"`
 	Variant string `json:"variant"`
 	// request side (C02Q)
-	Invoked   int                 `json:"invoked"`             // invocations of the service method
-	Sent      map[string]string   `json:"sent,omitempty"`      // payload given to the client endpoint, per attribute
-	Recv      map[string]string   `json:"recv,omitempty"`      // payload the service method received, per attribute
-	ReqLine   string              `json:"req_line,omitempty"`  // method and request URI as parsed by the server
+	Invoked   int                 `json:"invoked"`            // invocations of the service method
+	Sent      map[string]string   `json:"sent,omitempty"`     // payload given to the client endpoint, per attribute
+	Recv      map[string]string   `json:"recv,omitempty"`     // payload the service method received, per attribute
+	ReqLine   string              `json:"req_line,omitempty"` // method and request URI as parsed by the server
 	ReqHeader map[string][]string `json:"req_header,omitempty"`
 	ReqBody   string              `json:"req_body,omitempty"`
 	ReqSent   []string            `json:"req_sent,omitempty"` // messages the client streamed
@@ -241,8 +241,8 @@ type OpObs struct {
 	Panic     string    `json:"panic,omitempty"` // message of a panic in generated code
 	PanicSite string    `json:"panic_site,omitempty"`
 	Herr      string    `json:"herr,omitempty"`
-	Abs02 []AbsFail `json:"abs02,omitempty"`
-	Abs03 []AbsFail `json:"abs03,omitempty"`
+	Abs02     []AbsFail `json:"abs02,omitempty"`
+	Abs03     []AbsFail `json:"abs03,omitempty"`
 }
 
 var hostPortRe = regexp.MustCompile(`(127\.0\.0\.1|\[::1\]|localhost):\d+`)
@@ -1173,7 +1173,7 @@ func runSeqMode(s *Svc, m *spec.Method, tier, side string) *MethodResult {
 		r.sample(smp)
 	}
 
-	// ---- report: minimal failing sequences only, variants folded when every variant fails alike
+	// ---- report: minimal failing sequences only, value variants folded when the failing combinations form a product
 	keys := keysSorted(failures)
 	sort.SliceStable(keys, func(i, j int) bool { return len(failures[keys[i]].ops) < len(failures[keys[j]].ops) })
 	type group struct {
